@@ -34,9 +34,10 @@ func init() {
 }
 
 func runC17(p *Program, r *Reporter) {
-	c17RuleGate(p, r)
+	a := c17NewAuth(p, r)
+	c17RuleGate(p, r, a)
 	c17RuleLinks(p, r)
-	c17RuleAuth(p, r)
+	c17RuleAuth(a)
 }
 
 // ---------------------------------------------------------------------------
@@ -638,7 +639,7 @@ func (g *c17Gate) report(pd *c17Pred) {
 	g.r.OK("H-gate", construct, site, detail)
 }
 
-func c17RuleGate(p *Program, r *Reporter) {
+func c17RuleGate(p *Program, r *Reporter, a *c17Auth) {
 	fn := p.Func("pkg/server", "shareHandler", "handleGetViaSharing")
 	g := &c17Gate{p: p, r: r, fn: fn, key: FuncKey(fn), emitBlk: map[*ssa.BasicBlock]bool{}}
 	site := p.Pos(fn.Pos())
@@ -651,7 +652,7 @@ func c17RuleGate(p *Program, r *Reporter) {
 	fetcher := p.Iface("pkg/blob", "Fetcher")
 	linkFn := p.Func("pkg/server", "", "bytesHaveSchemaLink")
 	r.Analysed("functions", 1+len(fn.AnonFuncs))
-	r.Floor("H-gate", 15)
+	r.Floor("H-gate", 17)
 
 	// --- emitters: every call that gets the ResponseWriter, except rw.Header()
 	nestedEmit := false
@@ -1085,6 +1086,84 @@ func c17RuleGate(p *Program, r *Reporter) {
 
 	// --- entry points: the ResponseWriter goes only to the gate or to error senders
 	c17GateEntries(p, r, fn)
+
+	// --- the emitters' other callers are all behind auth
+	c17WhoServes(p, r, a, g)
+}
+
+// c17WhoServes: "without credentials, blob contents only through the share
+// endpoint". For every module function the gate uses as a content emitter,
+// walk its static callers upwards; every chain must end in the gate itself or
+// in the ServeHTTP of a handler type that is auth-wrapped (registered under a
+// type handlerTypeWantsAuth answers true for, or built by a blob-protocol
+// constructor whose result flows only into auth.RequireAuth).
+func c17WhoServes(p *Program, r *Reporter, a *c17Auth, g *c17Gate) {
+	a.tables()
+	done := map[*ssa.Function]bool{}
+	for _, e := range g.emitters {
+		ef := e.Callee()
+		if ef == nil || !InModule(ef) || done[ef] {
+			continue
+		}
+		done[ef] = true
+		construct := g.key + "#who-serves:" + FuncKey(ef)
+		var roots, bad, undec []string
+		seen := map[*ssa.Function]bool{}
+		var up func(f *ssa.Function, depth int)
+		up = func(f *ssa.Function, depth int) {
+			if seen[f] {
+				return
+			}
+			seen[f] = true
+			if depth > 8 {
+				undec = append(undec, "caller chain above "+FuncKey(f)+" is deeper than 8")
+				return
+			}
+			if uses := p.FuncValueUses(f); len(uses) > 0 {
+				undec = append(undec, FuncKey(f)+" is used as a function value at "+p.Pos(uses[0].Pos()))
+			}
+			for _, c := range p.StaticCallers(f) {
+				top := TopFunc(c.Fn)
+				rel := RelPkg(top.Pkg.Pkg)
+				if IsTestSupportPkg(rel) || strings.HasPrefix(rel, "app/") || strings.HasPrefix(rel, "cmd/") {
+					continue // separate processes / tools, not perkeepd endpoints
+				}
+				if top == g.fn {
+					roots = append(roots, "the gate")
+					continue
+				}
+				if top.Name() == "ServeHTTP" && top.Signature.Recv() != nil && types.Implements(top.Signature.Recv().Type(), a.httpHandler) {
+					tn := NamedOf(top.Signature.Recv().Type())
+					if typ, ok := a.wrappedConcrete[tn]; ok {
+						roots = append(roots, fmt.Sprintf("%s (handler type %q, auth.Handler-wrapped)", FuncKey(top), typ))
+						continue
+					}
+					if ctor, ok := a.protocolConcrete[tn]; ok {
+						roots = append(roots, fmt.Sprintf("%s (built by %s, behind auth.RequireAuth)", FuncKey(top), ctor))
+						continue
+					}
+					if site := a.madeInterface(tn); site != "" {
+						bad = append(bad, fmt.Sprintf("%s reaches the emitter and %s is used as an http.Handler value (at %s) without being an auth-wrapped handler type", FuncKey(top), tn.Obj().Name(), site))
+						continue
+					}
+				}
+				up(top, depth+1)
+			}
+		}
+		up(ef, 0)
+		roots = c17Uniq(roots)
+		sort.Strings(roots)
+		switch {
+		case len(bad) > 0:
+			r.Violation("H-gate", construct, p.Pos(ef.Pos()), "blob contents can be served without credentials outside the share gate: "+strings.Join(c17Uniq(bad), "; "))
+		case len(undec) > 0:
+			r.Undecided("H-gate", construct, p.Pos(ef.Pos()), strings.Join(c17Uniq(undec), "; "))
+		case len(roots) == 0:
+			r.Violation("H-gate", construct, p.Pos(ef.Pos()), "no caller chain found at all (anchor moved?)")
+		default:
+			r.OK("H-gate", construct, p.Pos(ef.Pos()), "every static caller chain ends in: "+strings.Join(roots, "; "))
+		}
+	}
 }
 
 // c17ErrorSenders are the calls a share entry point may hand the
@@ -1551,6 +1630,82 @@ type c17Auth struct {
 	httpHandler *types.Interface
 	// concrete handler type -> registered type name, for types handlerTypeWantsAuth answers true
 	wrappedConcrete map[*types.Named]string
+	// concrete handler type -> blob-protocol constructor that builds it
+	protocolConcrete map[*types.Named]string
+	protoCtors       []*ssa.Function
+	ifaceSites       map[*types.Named]string
+}
+
+// tables computes the handler-type tables shared by H-gate and H-auth.
+func (a *c17Auth) tables() {
+	if a.wrappedConcrete != nil {
+		return
+	}
+	p := a.p
+	a.wrappedConcrete = map[*types.Named]string{}
+	a.protocolConcrete = map[*types.Named]string{}
+	reg := p.Func("pkg/blobserver", "", "RegisterHandlerConstructor")
+	for _, c := range p.StaticCallers(reg) {
+		typ, ok := ConstString(c.Args()[0])
+		ctor, _ := originValue(c.Args()[1]).(*ssa.Function)
+		if !ok || ctor == nil || IsTestSupportPkg(RelPkg(TopFunc(c.Fn).Pkg.Pkg)) {
+			continue
+		}
+		if val, decided := c17EvalStringPred(a.wantsAuth, typ); decided && val {
+			if cn := c17CtorConcrete(ctor); cn != nil {
+				a.wrappedConcrete[cn] = typ
+			}
+		}
+	}
+	for _, rel := range []string{"pkg/blobserver/handlers", "pkg/blobserver/gethandler"} {
+		for _, fn := range p.FuncsIn(rel) {
+			if fn.Parent() != nil || fn.Signature.Recv() != nil || fn.Object() == nil || !fn.Object().Exported() {
+				continue
+			}
+			res := fn.Signature.Results()
+			if res.Len() != 1 || !IsNamed(res.At(0).Type(), "net/http", "Handler") {
+				continue
+			}
+			a.protoCtors = append(a.protoCtors, fn)
+			if cn := c17CtorConcrete(fn); cn != nil && c17InModuleType(cn) {
+				a.protocolConcrete[cn] = FuncKey(fn)
+			}
+		}
+	}
+}
+
+// c17InModuleType reports whether the named type is declared in a perkeep.org package.
+func c17InModuleType(n *types.Named) bool {
+	return n.Obj().Pkg() != nil && strings.HasPrefix(n.Obj().Pkg().Path(), modPrefix)
+}
+
+// madeInterface returns a site where a value of named type n (or *n) is
+// converted to an interface having a ServeHTTP method, "" when there is none.
+func (a *c17Auth) madeInterface(n *types.Named) string {
+	if a.ifaceSites == nil {
+		a.ifaceSites = map[*types.Named]string{}
+		for _, fn := range a.p.AllFuncs {
+			for _, b := range fn.Blocks {
+				for _, in := range b.Instrs {
+					mi, ok := in.(*ssa.MakeInterface)
+					if !ok {
+						continue
+					}
+					tn := NamedOf(mi.X.Type())
+					if tn == nil || !c17InModuleType(tn) || a.ifaceSites[tn] != "" {
+						continue
+					}
+					if !types.Implements(mi.X.Type(), a.httpHandler) {
+						continue
+					}
+					if it, ok := mi.Type().Underlying().(*types.Interface); ok && it.NumMethods() > 0 {
+						a.ifaceSites[tn] = a.p.Pos(mi.Pos())
+					}
+				}
+			}
+		}
+	}
+	return a.ifaceSites[n]
 }
 
 // c17ServerScope: packages whose handler registrations make up a perkeepd
@@ -1558,7 +1713,7 @@ type c17Auth struct {
 // pkg/server/app) and cmd/ (clients, dev tools) are out of scope.
 var c17ServerScope = []string{"pkg", "server", "internal"}
 
-func c17RuleAuth(p *Program, r *Reporter) {
+func c17NewAuth(p *Program, r *Reporter) *c17Auth {
 	a := &c17Auth{p: p, r: r}
 	a.requireAuth = p.Func("pkg/auth", "", "RequireAuth")
 	a.allowed = p.Func("pkg/auth", "", "Allowed")
@@ -1575,7 +1730,12 @@ func c17RuleAuth(p *Program, r *Reporter) {
 		brokenf("anchor unresolved: net/http.Handler")
 	}
 	a.httpHandler = tn.Type().Underlying().(*types.Interface)
-	r.Floor("H-auth", 28)
+	return a
+}
+
+func c17RuleAuth(a *c17Auth) {
+	a.r.Floor("H-auth", 28)
+	a.tables()
 	a.handlerTypes()
 	a.constructors()
 	a.registrations()
@@ -1684,19 +1844,6 @@ func (a *c17Auth) handlerTypes() {
 	}{
 		"share": {"the share handler is the one deliberately unauthenticated endpoint; it validates the via chain itself (H-gate)", a.checkShareCtor},
 		"root":  {"the root handler serves only a public landing page/redirects and gates discovery per request", a.checkRootCtor},
-	}
-	a.wrappedConcrete = map[*types.Named]string{}
-	for _, c := range p.StaticCallers(reg) {
-		typ, ok := ConstString(c.Args()[0])
-		ctor, _ := originValue(c.Args()[1]).(*ssa.Function)
-		if !ok || ctor == nil || IsTestSupportPkg(RelPkg(c.Fn.Pkg.Pkg)) {
-			continue
-		}
-		if val, decided := c17EvalStringPred(a.wantsAuth, typ); decided && val {
-			if cn := c17CtorConcrete(ctor); cn != nil {
-				a.wrappedConcrete[cn] = typ
-			}
-		}
 	}
 	n := 0
 	for _, c := range p.StaticCallers(reg) {
@@ -2035,20 +2182,10 @@ func c17FlowsTo(src, dst ssa.Value) bool {
 // (ii) blob-protocol handler constructors
 func (a *c17Auth) constructors() {
 	p, r := a.p, a.r
-	var ctors []*ssa.Function
+	ctors := a.protoCtors
 	isCtor := map[*ssa.Function]bool{}
-	for _, rel := range []string{"pkg/blobserver/handlers", "pkg/blobserver/gethandler"} {
-		for _, fn := range p.FuncsIn(rel) {
-			if fn.Parent() != nil || fn.Signature.Recv() != nil || fn.Object() == nil || !fn.Object().Exported() {
-				continue
-			}
-			res := fn.Signature.Results()
-			if res.Len() != 1 || !IsNamed(res.At(0).Type(), "net/http", "Handler") {
-				continue
-			}
-			ctors = append(ctors, fn)
-			isCtor[fn] = true
-		}
+	for _, fn := range ctors {
+		isCtor[fn] = true
 	}
 	if len(ctors) < 6 {
 		brokenf("anchor unresolved: expected the blob-protocol handler constructors in pkg/blobserver/handlers and gethandler, found %d", len(ctors))
